@@ -169,6 +169,11 @@ def zero_rule(ctx, rep, b, impl, is_async, rbb, rt, n):
     if len(zsw) == 1:
         zbb, zero_t, nonzero_t = zsw[0]
         kz = b.ret_kinds(zero_t)
+        if kz != {"Err"}:
+            # through an inlined helper the Err value reaches the caller's `?`: decide the exits variant-sensitively
+            kv = b.ret_kinds_v(zero_t)
+            if kv and kv <= {"Err", "residual"}:
+                kz = {"Err"}
         rep.check("R5.2", "%s:zero-is-disconnect:%d" % (impl, n), kz == {"Err"}, "a transport read of 0 bytes must return Err(Disconnected) (found exits %s)" % sorted(kz), b.loc(rt["line"]),
                   sample={"impl": impl, "zero_exits": sorted(kz)})
         disc = False
